@@ -8,16 +8,39 @@ from gtwrap.template_instantiator.declaration import InstantiatedDeclaration
 from gtwrap.template_instantiator.function import InstantiatedGlobalFunction
 
 
-def instantiate_namespace(namespace):
+def find_typedef_templates(namespace, templates):
+    """
+    Look up the template named by each typedef in `namespace` and below.
+
+    @param[in] namespace The namespace to search for typedefs.
+    @param[out] templates Dict from the id of the typedef to its template.
+    """
+    for element in namespace.content:
+        if isinstance(element, parser.TypedefTemplateInstantiation):
+            templates[id(element)] = \
+                namespace.top_level().find_class_or_function(element.typename)
+        elif isinstance(element, parser.Namespace):
+            find_typedef_templates(element, templates)
+
+
+def instantiate_namespace(namespace, typedef_templates=None):
     """
     Instantiate the classes and other elements in the `namespace` content and
     assign it back to the namespace content attribute.
 
     @param[in/out] namespace The namespace whose content will be replaced with
         the instantiated content.
+    @param[in] typedef_templates The templates named by the typedefs,
+        as found by `find_typedef_templates`.
     """
     instantiated_content = []
     typedef_content = []
+
+    if typedef_templates is None:
+        # The content of each namespace is replaced as we go, so the templates
+        # have to be looked up while they are all still in the tree.
+        typedef_templates = {}
+        find_typedef_templates(namespace, typedef_templates)
 
     for element in namespace.content:
         if isinstance(element, parser.Class):
@@ -54,9 +77,7 @@ def instantiate_namespace(namespace):
             # This is for the case where `typedef` statements are used
             # to specify the template parameters.
             typedef_inst = element
-            top_level = namespace.top_level()
-            original_element = top_level.find_class_or_function(
-                typedef_inst.typename)
+            original_element = typedef_templates[id(typedef_inst)]
 
             # Check if element is a typedef'd class, function or
             # forward declaration from another project.
@@ -77,7 +98,7 @@ def instantiate_namespace(namespace):
                         typedef_inst.new_name))
 
         elif isinstance(element, parser.Namespace):
-            element = instantiate_namespace(element)
+            element = instantiate_namespace(element, typedef_templates)
             instantiated_content.append(element)
         else:
             instantiated_content.append(element)
